@@ -107,6 +107,8 @@ namespace CWorld
 
 def now (w : CWorld) : Time := w.v.cron.clock.now
 def finish (w : CWorld) (s : SS) : CWorld := { w with ret := s, pc := .idle }
+/-- `dispatchTask` gives up: also remember to restart the timer in the next `Step` (D21) -/
+def finishDE (w : CWorld) (s : SS) : CWorld := { w.finish s with getNextErr := true }
 def setCron (w : CWorld) (c : Cron) : CWorld := { w with v := { w.v with cron := c } }
 
 def afterPrologue (w : CWorld) : CWorld :=
@@ -168,11 +170,11 @@ def sched (w : CWorld) (a : SActC) : CWorld × RespC :=
       let e := if f == .after then some Err.other else none
       (w.finish (.taskDone id o e), .err e)
   | .d_wait t retry, .waitWorker acquired =>
-    if !acquired then (w.finish (.dispatchErr t .ctx), .err (some .ctx))
+    if !acquired then (w.finishDE (.dispatchErr t .ctx), .err (some .ctx))
     else if retry then ({ w with pc := .d_get t }, .unit)
     else ({ w with pc := .d_mark t }, .unit)
   -- MarkAsDispatched = Peek; [Pop]; bookkeeping
-  | .d_mark t, .markDispatched .before => (w.finish (.dispatchErr t .other), .err (some .other))
+  | .d_mark t, .markDispatched .before => (w.finishDE (.dispatchErr t .other), .err (some .other))
   | .d_mark t, .peek =>
     match w.v.peek with
     | none => ({ w with pc := .d_markRet t (some .exhausted) }, .otask none)
@@ -195,13 +197,13 @@ def sched (w : CWorld) (a : SActC) : CWorld × RespC :=
   | .d_markRet t e, .markDispatched f =>
     let e : Option Err := if f == .after then some .other else e
     match e with
-    | some e => (w.finish (.dispatchErr t e), .err (some e))
+    | some e => (w.finishDE (.dispatchErr t e), .err (some e))
     | none => ({ w with pc := .d_get t }, .err none)
   | .d_get t, .getById f =>
-    if f != .none then (w.finish (.dispatchErr t .other), .err (some .other))
+    if f != .none then (w.finishDE (.dispatchErr t .other), .err (some .other))
     else
       match w.v.lookup t.id with
-      | none => (w.finish (.dispatchErr t .idNotFound), .err (some .idNotFound))
+      | none => (w.finishDE (.dispatchErr t .idNotFound), .err (some .idNotFound))
       | some cur =>
         let w := { w with running := w.running ++ [(t.id, cur)],
                           log := w.log ++ [({ id := t.id, at_ := w.now, task := cur } : RunEntry)] }
